@@ -3262,7 +3262,7 @@ def cartesian(
         if isinstance(new_arrays, dict):
             if nested is True:
                 nested = list(new_arrays.keys())  # last key is ignored below
-            if any(not (isinstance(n, str) and n in new_arrays) for x in nested):
+            if any(not (isinstance(n, str) and n in new_arrays) for n in nested):
                 raise ValueError(
                     "the 'nested' parameter of cartesian must be dict keys "
                     "for a dict of arrays" + ak._util.exception_suffix(__file__)
@@ -3400,7 +3400,7 @@ def cartesian(
         if isinstance(new_arrays, dict):
             if nested is True:
                 nested = list(new_arrays.keys())  # last key is ignored below
-            if any(not (isinstance(n, str) and n in new_arrays) for x in nested):
+            if any(not (isinstance(n, str) and n in new_arrays) for n in nested):
                 raise ValueError(
                     "the 'nested' parameter of cartesian must be dict keys "
                     "for a dict of arrays" + ak._util.exception_suffix(__file__)
